@@ -93,6 +93,9 @@ func (s *Service) proxyToSingleEndpoint(ctx context.Context, w http.ResponseWrit
 	backendStart := time.Now()
 	resp, err := transport.RoundTrip(proxyReq)
 	stats.BackendResponseMs = time.Since(backendStart).Milliseconds()
+	if err == nil {
+		err = core.CheckBackendStatus(resp)
+	}
 
 	if err != nil {
 		if cb != nil {
